@@ -69,7 +69,7 @@ impl Prop for C01 {
     }
     fn runs(&self, tier: Tier) -> u64 {
         match tier {
-            Tier::Quick => 400,
+            Tier::Quick => 800,
             Tier::Thorough => 8000,
         }
     }
